@@ -24,6 +24,8 @@ use std::collections::BTreeMap;
 use std::time::{Duration, Instant};
 use tokens::{debug_structure, describe, tokens_of_debug, Pos, Tok, Triv, METHOD_TYPES_MARKER};
 
+/// a nesting depth counts as safe only if the whole pipeline finishes within this time
+const PROBE_SECS: u64 = 5;
 const ENTRY: &str = "src/main.lua";
 const OUTPUT: &str = "out/main.lua";
 
@@ -81,10 +83,13 @@ struct Failure {
     uncovered_tree: bool,
     /// the parsed tree has a method call with a type instantiation (H3 is false)
     method_types: bool,
+    /// the text (entry or a required module) contains `--` (H7 needs it)
+    text_has_comment: bool,
 }
 
 #[derive(Default)]
 struct CaseResult {
+    text_has_comment: bool,
     uncovered_tree: bool,
     method_types: bool,
     parsed: bool,
@@ -170,6 +175,7 @@ fn run_pipeline(case: &Case, config_text: &str, result: &mut CaseResult) {
             config: Some(config_text.to_owned()),
             uncovered_tree: result.uncovered_tree,
             method_types: result.method_types,
+            text_has_comment: result.text_has_comment,
         });
     };
     let configuration = match guarded(|| json5::from_str::<Configuration>(config_text)) {
@@ -268,6 +274,7 @@ fn check_batch_outputs(case: &Case, resources: &Resources, config_text: &str, re
                 config: Some(config_text.to_owned()),
                 uncovered_tree: false,
                 method_types: false,
+                text_has_comment: false,
             });
         }
     }
@@ -276,9 +283,10 @@ fn check_batch_outputs(case: &Case, resources: &Resources, config_text: &str, re
 fn run_case(case: &Case) -> CaseResult {
     let mut result = CaseResult::default();
     let text = case.text.as_str();
+    result.text_has_comment = text.contains("--") || case.files.iter().any(|(_, c)| c.contains("--"));
     let mut fail = |result: &mut CaseResult, kind: &str, stage: &str, panic: Option<PanicInfo>, detail: String| {
-        let (uncovered_tree, method_types) = (result.uncovered_tree, result.method_types);
-        result.failures.push(Failure { kind: kind.to_owned(), stage: stage.to_owned(), panic, detail, config: None, uncovered_tree, method_types });
+        let (uncovered_tree, method_types, text_has_comment) = (result.uncovered_tree, result.method_types, result.text_has_comment);
+        result.failures.push(Failure { kind: kind.to_owned(), stage: stage.to_owned(), panic, detail, config: None, uncovered_tree, method_types, text_has_comment });
     };
     // ---- Parser::parse, both modes
     let plain = guarded(|| Parser::default().parse(text));
@@ -396,6 +404,21 @@ fn classify<'k>(known: &'k [Known], failure: &Failure) -> Option<&'k Known> {
             .map(|p| !k.file.is_empty() && p.file().ends_with(&k.file) && p.message.starts_with(&k.message_prefix))
             .unwrap_or(false),
         "reference-survives-method-types" => failure.kind == "reference-survives" && failure.method_types,
+        "reparse-remove-spaces-comments" => {
+            failure.kind == "reparse"
+                && failure.text_has_comment
+                && failure
+                    .config
+                    .as_deref()
+                    .and_then(|c| serde_json::from_str::<Value>(c).ok())
+                    .map(|v| {
+                        v["generator"].as_str().map(|g| g.starts_with("retain")).unwrap_or(false)
+                            && v["rules"].as_array().into_iter().flatten().any(|r| {
+                                r.as_str().or(r["rule"].as_str()) == Some("remove_spaces")
+                            })
+                    })
+                    .unwrap_or(false)
+        }
         "pipeline-on-uncovered-tree" => {
             failure.uncovered_tree && failure.config.is_some() && failure.kind != "hang" && failure.stage != "configuration"
         }
@@ -544,7 +567,7 @@ fn probe(kind: &str, depth: usize) -> Probe {
                 }
             }
             Ok(None) => {
-                if start.elapsed() > Duration::from_secs(HANG_SECS) {
+                if start.elapsed() > Duration::from_secs(PROBE_SECS) {
                     let _ = child.kill();
                     let _ = child.wait();
                     return Probe::Slow;
@@ -622,7 +645,7 @@ fn random_configs(rng: &mut Rng, all_rules: &[&'static str], count: usize, allow
 
 fn generate_cases(rng: &mut Rng, thorough: bool, safe_depth: &BTreeMap<String, usize>) -> Vec<Case> {
     let all_rules = darklua_core::rules::get_all_rule_names();
-    let scale = if thorough { 10 } else { 1 };
+    let scale = if thorough { 60 } else { 3 };
     let mut cases = Vec::new();
     // 1. every (generator × span) with every single rule and with no rule, on one fixed program
     let fixed = luagen::SNIPPETS[0].to_owned() + luagen::SNIPPETS[1];
@@ -1182,6 +1205,30 @@ pub fn run(report: &mut Report, replay: Option<&str>) {
 
     // ---- 2. known findings: replay each witness
     for k in &known {
+        if k.witness["kind"] == "exponential-time" {
+            let timed = |text: &str| -> Option<Duration> {
+                let case = Case {
+                    class: "known-finding".to_owned(),
+                    text: text.to_owned(),
+                    files: Vec::new(),
+                    configs: k.witness["config"].as_str().map(|c| vec![c.to_owned()]).unwrap_or_default(),
+                };
+                let begin = Instant::now();
+                pool::run_limited(move || run_case(&case)).map(|_| begin.elapsed())
+            };
+            let small = timed(k.witness["text_small"].as_str().unwrap_or(""));
+            let large = timed(k.witness["text_large"].as_str().unwrap_or(""));
+            let still = match (small, large) {
+                (_, None) => true,
+                (Some(s), Some(l)) => l > Duration::from_millis(100) && l > s * 8,
+                (None, Some(_)) => false,
+            };
+            report.notes.push(format!("{}: {:?} for the small witness, {:?} for the large one (8 more terms; linear time would be x1.5, the measured ratio is what counts)", k.id, small, large));
+            if still {
+                report.known_finding(&k.id, &k.what);
+            }
+            continue;
+        }
         let Some(case) = Case::from_input(&k.witness) else { continue };
         let case2 = case.clone();
         let result = pool::run_limited(move || run_case(&case2));
@@ -1222,7 +1269,7 @@ pub fn run(report: &mut Report, replay: Option<&str>) {
         "measured safe nesting depth in THIS build (child processes, {} MiB thread stack, whole pipeline: parse both modes + {} rules x 3 generators, each within {} s; search cap {}): {}",
         STACK_BYTES / (1024 * 1024),
         darklua_core::rules::get_all_rule_names().len() - 1,
-        HANG_SECS,
+        PROBE_SECS,
         cap,
         safe_depth.iter().map(|(k, d)| format!("{}={} ({})", k, d, depth_notes.get(k).cloned().unwrap_or_default())).collect::<Vec<_>>().join("; ")
     ));
@@ -1255,6 +1302,7 @@ pub fn run(report: &mut Report, replay: Option<&str>) {
                         config: case.configs.first().cloned(),
                         uncovered_tree: false,
                         method_types: false,
+                        text_has_comment: false,
                     },
                 ));
             }
